@@ -79,7 +79,7 @@ int hawk_rtx_closeio (
 	const hawk_ooch_t* opt
 );
 
-void hawk_rtx_flushallios (hawk_rtx_t* rtx);
+int hawk_rtx_flushallios (hawk_rtx_t* rtx);
 void hawk_rtx_clearallios (hawk_rtx_t* rtx);
 
 #if defined(__cplusplus)
